@@ -3,7 +3,7 @@ Require Extraction.
 Require Import ExtrOcamlBasic.
 From Coq Require Import ZArith List Bool.
 From V Require Import base.Cal gen.ParseTables parse.Lex parse.Prim parse.Ymd parse.Parse parse.Build
-                      parse.ParseSpec.
+                      parse.ParseSpec parse.ParseSpec2 parse.FuzzyThm.
 Import ListNotations.
 Open Scope Z_scope.
 
@@ -211,6 +211,26 @@ Definition dispatch (n : Z) (args : list Z) : list Z :=
            b2z dayf; b2z yearf] ++ enc_str txt ++ enc_dt (expected_dt t dt dfl)
           ++ (match expected_off t o with Some v => [1; v] | None => [0; 0] end)
       | _ => [-1]
+      end
+  | 21 =>
+      (* compact time + fraction: [space; k; comma; oform; y; mo; d; h; mi; s; us; offpos; offh; offm]
+         -> [wf; n; text..; expected dt x7; has_off; off] *)
+      match args with
+      | [sp; k; cm; ofm; y; mo; d; h; mi; s; us; op; oh; om] =>
+          let dt := mkDt y mo d h mi s us in
+          let o := mkOff (z2b op) oh om in
+          let kk := Z.to_nat k in
+          [b2z (wf_cf kk (dec_oform ofm) && wf_off o && valid_dt dt)]
+          ++ enc_str (render_cf (z2b sp) kk (z2b cm) (dec_oform ofm) dt o)
+          ++ enc_dt (expected_cf_dt kk dt)
+          ++ (match expected_cf_off (dec_oform ofm) o with Some v => [1; v] | None => [0; 0] end)
+      | _ => [-1]
+      end
+  | 22 =>
+      (* guard of F-C15-ampm: does the strict run meet an AM/PM word with the flag already set? *)
+      match take_opts args with
+      | Some (o, s) => [b2z (strict_clash (o_cur_year o) s)]
+      | None => [-1]
       end
   | _ => [-1]
   end.
